@@ -3,7 +3,7 @@ import vlib, mirrorcheck
 
 META = {
     "level": "model_checking",
-    "text": "Mirror.tla models the kernel, the caller side of Handle*, replay and the stores action by action; TLC checks CommitHasCert (every committed header carries authentic precommits of > 2/3 of the chain-prescribed set for exactly its height, round and hash) exhaustively on bounded histories of proposals, votes, replayed headers (wrong set, wrong round, forged or insufficient certificates) and state machine actions; TLC-generated behaviours are replayed on a real tmmirror.Mirror with real ed25519 signatures, the projected real state is compared with the spec after every step and the predicate is re-evaluated on the REAL committed-header store, committing view and round-entrance responses by an oracle that verifies every signature itself against the set the chain prescribes.",
+    "text": "Mirror.tla models the kernel, the caller side of Handle*, replay and the stores action by action; TLC checks CommitHasCert (every committed header carries authentic precommits of > 2/3 of the chain-prescribed set for exactly its height, round and hash) exhaustively on bounded histories of proposals, votes, replayed headers (wrong set, wrong round, forged or insufficient certificates) and state machine actions; TLC-generated behaviours are replayed on a real tmmirror.Mirror with real ed25519 signatures, the projected real state is compared with the spec after every step and the predicate is re-evaluated on the REAL committed-header store, committing view and round-entrance responses by an oracle that verifies every signature itself against the set the chain prescribes. Generation: TLC simulation on curated worlds plus an exhaustive state cover of the focused validator-set world; predicate failures and divergences must reproduce on a second replay; after a divergence the run continues as a free run in which only the predicates are evaluated; the repository's own tests run under an invariant monitor evaluating the same state predicate inside the kernel goroutine.",
     "note": "Bounded: N=4 (+ foreign keys), heights 1..2, rounds 0..2, curated message universes (checks/mirror_worlds.py); behaviours by TLC simulation, not all paths. Trusted: TLC, the harness oracle (crypto/ed25519 via gcrypto.PubKey.Verify, SimpleSignatureScheme sign bytes), tmmemstore as the store.",
     "technique": "TLA+ spec (Mirror.tla) + TLC exhaustive bounded check + replay of TLC behaviours on the real Mirror with per-step state comparison and real-state predicate evaluation",
 }
